@@ -38,7 +38,9 @@ func init() {
 			"scheme-relative, same path as the root on another host, whole-file and fragment forms, missing target) × 3 entry points × both switch settings (quick: a sixth of the grid); " +
 			"enumerated families: $ref path items whose target is itself a $ref (target resolved / sorting later / in progress), a reference text in progress for one kind and met under another kind " +
 			"(6 shapes × every sub-position), targets only the raw re-read reaches; hand-made cross-document shapes (corpus) and a seeded random stream of multi-file universes " +
-			"(element files are also read through references of other kinds). Every case is loaded twice: recording reader directly and behind openapi3.URIMapCache. " +
+			"(element files are also read through references of other kinds); root locations whose directory or file name holds '#', '?' or a literal %XX (7 roots × 3 references × 3 entry points × switch); " +
+			"the library's own readers (ReadFromURIs(ReadFromHTTP, ReadFromFile) in both orders, ReadFromFile alone, DefaultReadFromURI where it stays off the network) on 5 schemes × 3 hosts × 4 paths " +
+			"over a scratch directory and a recording http.RoundTripper. Every case is loaded twice: recording reader directly and behind openapi3.URIMapCache. " +
 			"Non-trivial = the model reports a branch other than the default (a read, a denial, a cache hit, a re-read, an in-progress skip, …).",
 		Exhaustive: true,
 		Gen:        genC11,
@@ -47,6 +49,7 @@ func init() {
 		Shrink:     shrinkC11,
 		TimeoutMs:  10000,
 		Assumptions: []string{
+			"reader cases: os.ReadFile and http.Client.Do are observed through a scratch directory and a recording RoundTripper; DefaultReadFromURI itself is only called for locations ReadFromHTTP declines",
 			"reference texts are parsed by net/url on the harness side (scheme, host, path, fragment are inputs of the model)",
 			"fragment references target documents, whole-file references target element files (of the same or another kind; a callback reference only a callback file) or documents read as an element; deep fragments never cross a $ref node; no null elements; inline path items are non-empty",
 			"position tables and visiting order of the resolvers are encoded in the harness (c11ChildKind/c11OrderKey), written after the regenerated table WalkSites (obligation walk_sites_as_modelled) and validated by the comparison of read sequences",
